@@ -106,6 +106,7 @@ class ExternalClass:
         self.subclasses = set()
         self.methods = {}
         self.class_attrs = {}
+        self.data = set()      # attributes that are plain data fields (not methods)
 
     def lookup(self, name):
         for c in self.mro:
@@ -204,7 +205,10 @@ class ClassTable:
         mk("NotImplementedError", (self.ext["RuntimeError"],))
         mk("ModuleNotFoundError", (self.ext["ImportError"],))
         mk("LexError", (ex,), attrs=["text", "error_index"])      # sly.lex.LexError
-        mk("Lexer", attrs=["tokenize", "lineno", "index", "text"])   # sly.Lexer
+        lx = mk("Lexer", attrs=["tokenize", "lineno", "index", "text"])   # sly.Lexer
+        lx.data = {"lineno", "index", "text"}
+        tk = mk("Token", attrs=["type", "value", "lineno", "index", "end"])          # sly.lex.Token
+        tk.data = {"type", "value", "lineno", "index", "end"}
         mk("Parser", attrs=["parse", "errok", "restart"])            # sly.Parser
         mk("Enum", attrs=["name", "value"])
         mk("EnumMeta", (self.ext["type"],))
